@@ -1,5 +1,5 @@
-(* C06 — every entry that leaves is reported exactly once. TtlProofs.v (cache level, ghost log glog / notification log nlog) over the shard-level Ledger/NotifLog invariants. Only `exact` + Print Assumptions. *)
-Require Import KV.Base KV.Gen.Consts KV.ConfigModel KV.CacheModel KV.ClassicProofs KV.SieveProofs KV.CacheProofs KV.TtlProofs KV.MutexAtomicity.
+(* C06 — every entry that leaves is reported exactly once. TtlProofs.v (cache level, ghost log glog / notification log nlog) over the shard-level Ledger/NotifLog invariants. Only `exact` + Print Assumptions. Delivery (NotifierProofs.v): the staging buffers, the pending flags, the coalescing wake token and the single notifier goroutine as an LTS, for any number of shards and mutators, every schedule and select choice, listeners that re-enter the cache. *)
+Require Import KV.Base KV.Gen.Consts KV.ConfigModel KV.CacheModel KV.ClassicProofs KV.SieveProofs KV.CacheProofs KV.TtlProofs KV.MutexAtomicity KV.NotifierLts KV.NotifierProofs.
 Open Scope Z_scope.
 
 (* for every (k,v), after every history: #written = #resident + #replaced + #cleared + #dropped (summed over shards) *)
@@ -12,27 +12,27 @@ Theorem c06_conservation_all_histories :
          1 <= ncpu ->
          ShardCount cfg <= 2 ^ 62 ->
          let c := CA.crun (cache_init l) ops in
-         sum_shards (fun s : shard => cnt (is_tag 0 k v) (glog s)) c =
-         sum_shards (fun s : shard => cnt (is_kv k v) (all_items s)) c +
-         sum_shards (fun s : shard => cnt (is_tag 1 k v) (glog s)) c +
-         sum_shards (fun s : shard => cnt (is_tag 2 k v) (glog s)) c +
-         sum_shards (fun s : shard => cnt (is_drop k v) (glog s)) c.
+         sum_shards (fun s : CacheModel.shard => cnt (is_tag 0 k v) (glog s)) c =
+         sum_shards (fun s : CacheModel.shard => cnt (is_kv k v) (all_items s)) c +
+         sum_shards (fun s : CacheModel.shard => cnt (is_tag 1 k v) (glog s)) c +
+         sum_shards (fun s : CacheModel.shard => cnt (is_tag 2 k v) (glog s)) c +
+         sum_shards (fun s : CacheModel.shard => cnt (is_drop k v) (glog s)) c.
 Proof. exact TtlProofs.c06_conservation_run. Qed.
 
 (* the same as a state invariant *)
 Theorem c06_conservation :
   forall (c : cache) (k v : Z),
          TInv c ->
-         sum_shards (fun s : shard => cnt (is_tag 0 k v) (glog s)) c =
-         sum_shards (fun s : shard => cnt (is_kv k v) (all_items s)) c +
-         sum_shards (fun s : shard => cnt (is_tag 1 k v) (glog s)) c +
-         sum_shards (fun s : shard => cnt (is_tag 2 k v) (glog s)) c +
-         sum_shards (fun s : shard => cnt (is_drop k v) (glog s)) c.
+         sum_shards (fun s : CacheModel.shard => cnt (is_tag 0 k v) (glog s)) c =
+         sum_shards (fun s : CacheModel.shard => cnt (is_kv k v) (all_items s)) c +
+         sum_shards (fun s : CacheModel.shard => cnt (is_tag 1 k v) (glog s)) c +
+         sum_shards (fun s : CacheModel.shard => cnt (is_tag 2 k v) (glog s)) c +
+         sum_shards (fun s : CacheModel.shard => cnt (is_drop k v) (glog s)) c.
 Proof. exact TtlProofs.c06_conservation. Qed.
 
 (* nlog = the dropped entries whose reason bit is in the listener mask, in order, once each *)
 Theorem c06_notifications_are_the_drops :
-  forall (c : cache) (sh : Z) (s : shard),
+  forall (c : cache) (sh : Z) (s : CacheModel.shard),
          TInv c ->
          get_shard c sh = Some s ->
          nlog s = notifs_of (mask c) (glog s) /\
@@ -44,11 +44,11 @@ Proof. exact TtlProofs.c06_notifications. Qed.
 
 (* each operation extends every shard's notification log by exactly the masked image of what it dropped *)
 Theorem c06_step_delta :
-  forall (c : cache) (op : CA.cop) (ev : list Z) (i : nat) (s : shard),
+  forall (c : cache) (op : CA.cop) (ev : list Z) (i : nat) (s : CacheModel.shard),
          TInv c ->
-         nth_error (shards c) i = Some s ->
-         exists (s' : shard) (delta : list (Z * Z * Z)),
-           nth_error (shards (fst (CA.cstep_full c op ev))) i = Some s' /\
+         nth_error (CacheModel.shards c) i = Some s ->
+         exists (s' : CacheModel.shard) (delta : list (Z * Z * Z)),
+           nth_error (CacheModel.shards (fst (CA.cstep_full c op ev))) i = Some s' /\
            glog s' = glog s ++ delta /\
            nlog s' = nlog s ++ notifs_of (mask c) delta /\
            Forall (entry_just (policy c) (now c) op i) delta.
@@ -58,15 +58,18 @@ Proof. exact TtlProofs.c06_full_step_delta. Qed.
 Theorem c06_clear_stages_nothing :
   forall c : cache,
          closed c = false ->
-         shards (op_clear c) = map (clear_shard (policy c)) (shards (drain_all c)) /\
-         shards (op_close c) = map (clear_shard (policy c)) (shards (drain_all c)) /\
-         (forall s : shard,
-          staged (clear_shard (policy c) s) = staged s /\ nlog (clear_shard (policy c) s) = nlog s).
+         CacheModel.shards (op_clear c) =
+         map (clear_shard (policy c)) (CacheModel.shards (drain_all c)) /\
+         CacheModel.shards (op_close c) =
+         map (clear_shard (policy c)) (CacheModel.shards (drain_all c)) /\
+         (forall s : CacheModel.shard,
+          CacheModel.staged (clear_shard (policy c) s) = CacheModel.staged s /\
+          nlog (clear_shard (policy c) s) = nlog s).
 Proof. exact TtlProofs.c06_clear_stages_nothing. Qed.
 
 (* an entry whose last event is a drop or clear is not resident, Exists false, not listed; Get misses when nothing is queued *)
 Theorem c06_not_readable :
-  forall (c : cache) (sh : Z) (s : shard) (k t v : Z),
+  forall (c : cache) (sh : Z) (s : CacheModel.shard) (k t v : Z),
          TInv c ->
          get_shard c sh = Some s ->
          lastev (glog s) k = Some (t, v) ->
@@ -80,7 +83,7 @@ Proof. exact TtlProofs.c06_not_readable. Qed.
 
 (* a resident entry's last event is its own write: nothing is reported for an entry still readable *)
 Theorem c06_resident_last_written :
-  forall (c : cache) (sh k : Z) (it : item) (s : shard),
+  forall (c : cache) (sh k : Z) (it : item) (s : CacheModel.shard),
          TInv c ->
          get_shard c sh = Some s -> resident c sh k = Some it -> lastev (glog s) k = Some (0, val it).
 Proof. exact TtlProofs.c06_resident_last_written. Qed.
@@ -110,7 +113,8 @@ Proof. exact TtlProofs.c06_reasons. Qed.
 
 (* drops of one write: distinct keys, gone afterwards, capacity=>published, unpublished=>the write's own rejected candidate *)
 Theorem c06_write_drops :
-  forall (pol m : Z) (e : env) (s : shard) (k v ex0 c : Z) (s' : shard) (cm : bool) (d : Z),
+  forall (pol m : Z) (e : env) (s : CacheModel.shard) (k v ex0 c : Z) 
+           (s' : CacheModel.shard) (cm : bool) (d : Z),
          e_pol e = pol ->
          e_mask e = m ->
          ShInv pol m s ->
@@ -120,7 +124,7 @@ Theorem c06_write_drops :
            (glog s' = glog s ++ wlog (lookup s pol k) k v ++ map SP.dent dl \/
             glog s' = glog s ++ map SP.dent dl ++ wlog (lookup s pol k) k v /\ ~ In k (map dkey dl)) /\
            nlog s' = nlog s ++ dnotes m dl /\
-           staged s' = staged s ++ dnotes m dl /\
+           CacheModel.staged s' = CacheModel.staged s ++ dnotes m dl /\
            NoDup (map dkey dl) /\
            Forall
              (fun p : item * Z =>
@@ -143,7 +147,7 @@ Proof. exact TtlProofs.c06_write_drops. Qed.
 Theorem c06_sieve_reasons :
   forall e : env,
          e_pol e = policySieve ->
-         forall (s : shard) (k v ex0 c : Z) (s' : shard) (cm : bool) (d : Z),
+         forall (s : CacheModel.shard) (k v ex0 c : Z) (s' : CacheModel.shard) (cm : bool) (d : Z),
          SInv s ->
          Quiet s ->
          0 <= c ->
@@ -156,7 +160,7 @@ Theorem c06_sieve_reasons :
            | None => [(0, k, v)]
            end ++ map dent dl /\
            nlog s' = nlog s ++ dnots e dl /\
-           staged s' = staged s ++ dnots e dl /\
+           CacheModel.staged s' = CacheModel.staged s ++ dnots e dl /\
            Forall
              (fun p : item * Z =>
               (snd p = reasonCapacity \/ snd p = reasonRejected) /\
@@ -172,7 +176,7 @@ Proof. exact SieveProofs.apply_sieve_reasons. Qed.
 Theorem c06_sieve_ledger :
   forall e : env,
          e_pol e = policySieve ->
-         forall (s : shard) (k v ex c : Z) (s' : shard) (cm : bool) (d : Z),
+         forall (s : CacheModel.shard) (k v ex c : Z) (s' : CacheModel.shard) (cm : bool) (d : Z),
          SInv s ->
          Quiet s -> 0 <= c -> Ledger s -> apply_sieve e s k v ex c = (s', cm, d) -> Ledger s'.
 Proof. exact SieveProofs.apply_sieve_ledger. Qed.
@@ -181,7 +185,7 @@ Proof. exact SieveProofs.apply_sieve_ledger. Qed.
 Theorem c06_sieve_notiflog :
   forall e : env,
          e_pol e = policySieve ->
-         forall (s : shard) (k v ex c : Z) (s' : shard) (cm : bool) (d : Z),
+         forall (s : CacheModel.shard) (k v ex c : Z) (s' : CacheModel.shard) (cm : bool) (d : Z),
          SInv s ->
          Quiet s ->
          0 <= c ->
@@ -193,7 +197,7 @@ Theorem c06_literal_refuted_update :
   let c1 := fst (op_set ex_weighted_lru 1 10 0 5 0) in
          let c2 := fst (op_set c1 2 20 0 5 0) in
          let c3 := fst (op_set c2 1 11 0 6 0) in
-         (map nview (staged (shard0 c2)), map nview (staged (shard0 c3)), 
+         (map nview (CacheModel.staged (shard0 c2)), map nview (CacheModel.staged (shard0 c3)),
           glog (shard0 c3), evictions c3,
           map (fun it : item => (key it, val it, cost it)) (lst (shard0 c3))) =
          ([], [(2, 20, 0)], [(0, 1, 10); (0, 2, 20); (1, 1, 10); (0, 1, 11); (10, 2, 20)], 1,
@@ -205,7 +209,7 @@ Theorem c06_literal_refuted_clear :
   let q := fun (c : cache) (k : Z) => fst (op_set_async c k (k * 10) 0 1 0) in
          let c5 := q (q (q (q (q ex_lru 1) 2) 3) 4) 5 in
          let c6 := op_clear c5 in
-         (map nview (staged (shard0 c5)), map nview (staged (shard0 c6)), 
+         (map nview (CacheModel.staged (shard0 c5)), map nview (CacheModel.staged (shard0 c6)),
           op_keys c6, size (shard0 c6)) = ([], [(1, 10, 0)], [], 0).
 Proof. exact TtlProofs.c06_clear_stages_nothing_refuted. Qed.
 
@@ -225,6 +229,158 @@ Theorem c06_example :
           Some (12, 10)).
 Proof. exact TtlProofs.ex_ttl_sieve. Qed.
 
+(* every delivered notification was staged, none is delivered twice, and per shard the delivery order is the staging order *)
+Theorem c06_delivery_at_most_once_fifo :
+  forall (re : Z -> option (nat * Z)) (n : nat) (scripts : list (list (nat * Z))) (s : state),
+         reachable re n scripts s ->
+         (NoDup (map snd (staged s)) -> NoDup (map snd (delivered s))) /\
+         (forall p : nat * Z,
+          (count_occ pair_dec (delivered s) p <= count_occ pair_dec (staged s) p)%nat) /\
+         (forall sh : nat, exists rest : list Z, proj sh (staged s) = proj sh (delivered s) ++ rest).
+Proof. exact NotifierProofs.at_most_once_no_fabrication_fifo. Qed.
+
+(* per shard, at every instant: staged = delivered ++ in the notifier's hand ++ still buffered *)
+Theorem c06_delivery_conservation :
+  forall (re : Z -> option (nat * Z)) (n : nat) (scripts : list (list (nat * Z))) 
+           (s : state) (sh : nat),
+         reachable re n scripts s ->
+         proj sh (staged s) = proj sh (delivered s) ++ inhand s sh ++ buf (shards s sh).
+Proof. exact NotifierProofs.conservation. Qed.
+
+(* a pending flag seen while the notifier is parked is always backed by a wake token or by a mutator about to signal (flag is stored BEFORE the signal; the reverse order loses a wake-up: signal_before_flag_loses_wake) *)
+Theorem c06_delivery_no_lost_wake :
+  forall (re : Z -> option (nat * Z)) (n : nat) (scripts : list (list (nat * Z))) 
+           (s : state) (sh : nat),
+         reachable re n scripts s ->
+         closeCh s = false ->
+         pending (shards s sh) = true -> npos s = NSelect -> wakeTok s = true \/ msig s sh.
+Proof. exact NotifierProofs.no_lost_wake. Qed.
+
+(* while the cache is open: mutators never block the notifier for good, the notifier is enabled whenever something is buffered, every notifier step decreases a measure, and at rest everything staged has been delivered *)
+Theorem c06_delivery_eventual :
+  forall (re : Z -> option (nat * Z)) (rank : Z -> nat) (n : nat)
+           (scripts : list (list (nat * Z))) (s : state),
+         (forall (x : Z) (j : nat) (y : Z), re x = Some (j, y) -> (rank y < rank x)%nat) ->
+         reachable re n scripts s ->
+         closeCh s = false ->
+         (forall t : nat, mpos (muts s t) <> MIdle -> exists s' : state, step re s (LMut t) = Some s') /\
+         (forall c : bool,
+          step re s (LNot c) = None ->
+          npos s = NSelect /\ wakeTok s = false \/
+          (exists sh t : nat,
+             mu (shards s sh) = Some (OwMut t) /\
+             mpos (muts s t) <> MIdle /\ (exists s' : state, step re s (LMut t) = Some s'))) /\
+         (quiescent s ->
+          forall sh : nat,
+          buf (shards s sh) <> [] -> forall c : bool, exists s' : state, step re s (LNot c) = Some s') /\
+         (forall (c : bool) (s' : state),
+          step re s (LNot c) = Some s' -> (measure rank s' < measure rank s)%nat) /\
+         (quiescent s ->
+          npos s = NSelect ->
+          wakeTok s = false ->
+          forall sh : nat, buf (shards s sh) = [] /\ proj sh (staged s) = proj sh (delivered s)).
+Proof. exact NotifierProofs.eventual_delivery. Qed.
+
+(* at rest (mutators idle, notifier parked, no token) every buffer is empty and delivered = staged *)
+Theorem c06_delivery_quiescent :
+  forall (re : Z -> option (nat * Z)) (n : nat) (scripts : list (list (nat * Z))) (s : state),
+         reachable re n scripts s ->
+         closeCh s = false ->
+         quiescent s ->
+         npos s = NSelect ->
+         wakeTok s = false ->
+         forall sh : nat, buf (shards s sh) = [] /\ proj sh (staged s) = proj sh (delivered s).
+Proof. exact NotifierProofs.quiescent_all_delivered. Qed.
+
+(* after the notifier exited: staged = delivered ++ late ++ (at most one in-flight append), where late = staged after the final drain visited that shard *)
+Theorem c06_close_final_drain :
+  forall (re : Z -> option (nat * Z)) (n : nat) (scripts : list (list (nat * Z))) 
+           (s : state) (sh : nat),
+         reachable re n scripts s ->
+         npos s = NExited ->
+         proj sh (staged s) = proj sh (delivered s) ++ proj sh (late s) ++ unfl s sh.
+Proof. exact NotifierProofs.close_final_drain. Qed.
+
+(* every notification whose flag store preceded the final visit of its shard is delivered exactly once before Close returns *)
+Theorem c06_close_exactly_once :
+  forall (re : Z -> option (nat * Z)) (n : nat) (scripts : list (list (nat * Z))) 
+           (s : state) (sh : nat) (x : Z),
+         reachable re n scripts s ->
+         npos s = NExited ->
+         quiescent s ->
+         NoDup (map snd (staged s)) ->
+         In (sh, x) (staged s) ->
+         ~ In (sh, x) (late s) -> count_occ pair_dec (delivered s) (sh, x) = 1%nat.
+Proof. exact NotifierProofs.close_final_drain_exactly_once. Qed.
+
+(* listeners run with no shard lock held by the notifier: re-entrant calls cannot self-deadlock *)
+Theorem c06_listener_without_lock :
+  forall (re : Z -> option (nat * Z)) (n : nat) (scripts : list (list (nat * Z))) (s : state),
+         reachable re n scripts s ->
+         match npos s with
+         | NDeliver _ | NReent _ MIdle _ _ => forall sh : nat, mu (shards s sh) <> Some OwNot
+         | NReent _ MLocked j _ | NReent _ MAppended j _ | NReent _ MFlagged j _ |
+           NReent _ MSignalled j _ => forall sh : nat, mu (shards s sh) = Some OwNot -> sh = j
+         | _ => True
+         end.
+Proof. exact NotifierProofs.listener_without_lock. Qed.
+
+(* a removal staged by a listener is delivered in the same pass or is covered by the token it signalled *)
+Theorem c06_reentrant_stage_delivered :
+  forall (re : Z -> option (nat * Z)) (n : nat) (scripts : list (list (nat * Z))) 
+           (s : state) (c : bool) (s' : state) (i j : nat) (y : Z),
+         reachable re n scripts s ->
+         npos s = NReent i MSignalled j y ->
+         step re s (LNot c) = Some s' ->
+         npos s' = NDeliver i /\
+         (exists pre : list Z, buf (shards s' j) = pre ++ [y]) /\
+         pending (shards s' j) = true /\
+         wakeTok s' = true /\
+         ((i < j)%nat -> covers (npos s') j) /\
+         (closeCh s' = false -> npos s' = NDeliver i /\ ((i < j)%nat \/ wakeTok s' = true)).
+Proof. exact NotifierProofs.reentrant_stage_delivered. Qed.
+
+(* finding F14 on the model: a removal staged after the notifier's final drain (a write worker's final drain applying a write accepted during shutdown) is never delivered *)
+Theorem c06_staged_after_exit_lost :
+  exists s : state,
+           exec re_none (init 1 [[(0%nat, 10)]; [(0%nat, 30)]])
+             (rep 5 (LMut 0) ++ [LClose] ++ rep 9 (LNot true) ++ [LClose] ++ rep 5 (LMut 1)) = 
+           Some s /\
+           npos s = NExited /\
+           cpos s = CDone /\
+           In (0%nat, 30) (staged s) /\
+           late s = [(0%nat, 30)] /\
+           buf (shards s 0) = [30] /\
+           pending (shards s 0) = true /\
+           wakeTok s = true /\
+           (forall (ls : list label) (s' : state),
+            exec re_none s ls = Some s' -> delivered s' = [(0%nat, 10)]).
+Proof. exact NotifierProofs.staged_after_exit_lost. Qed.
+
+(* the mutator's order (flag, then signal) is necessary *)
+Theorem c06_signal_order_matters :
+  exists s : state,
+           exec_sigfirst re_none (init 1 [[(0%nat, 10)]])
+             (rep 3 (LMut 0) ++ rep 3 (LNot false) ++ rep 2 (LMut 0)) = Some s /\
+           closeCh s = false /\
+           npos s = NSelect /\
+           wakeTok s = false /\
+           pending (shards s 0) = true /\
+           buf (shards s 0) = [10] /\
+           delivered s = [] /\
+           mpos (muts s 0) = MIdle /\
+           script (muts s 0) = [] /\
+           step_sigfirst re_none s (LNot false) = None /\
+           step_sigfirst re_none s (LNot true) = None /\ step_sigfirst re_none s (LMut 0) = None.
+Proof. exact NotifierProofs.signal_before_flag_loses_wake. Qed.
+
+(* non-vacuity: two shards, two mutators, two signals coalesced into one token, both delivered *)
+Theorem c06_delivery_example :
+  obs
+           (exec re_none (init 2 [[(0%nat, 10)]; [(1%nat, 20)]]) (rep 5 (LMut 0) ++ rep 5 (LMut 1))) =
+         Some ([[10]; [20]], [true; true], true, NSelect, [], [(0%nat, 10); (1%nat, 20)], []).
+Proof. exact NotifierProofs.ex_coalesced_tokens. Qed.
+
 Print Assumptions c06_conservation_all_histories.
 Print Assumptions c06_conservation.
 Print Assumptions c06_notifications_are_the_drops.
@@ -240,3 +396,15 @@ Print Assumptions c06_sieve_notiflog.
 Print Assumptions c06_literal_refuted_update.
 Print Assumptions c06_literal_refuted_clear.
 Print Assumptions c06_example.
+Print Assumptions c06_delivery_at_most_once_fifo.
+Print Assumptions c06_delivery_conservation.
+Print Assumptions c06_delivery_no_lost_wake.
+Print Assumptions c06_delivery_eventual.
+Print Assumptions c06_delivery_quiescent.
+Print Assumptions c06_close_final_drain.
+Print Assumptions c06_close_exactly_once.
+Print Assumptions c06_listener_without_lock.
+Print Assumptions c06_reentrant_stage_delivered.
+Print Assumptions c06_staged_after_exit_lost.
+Print Assumptions c06_signal_order_matters.
+Print Assumptions c06_delivery_example.
